@@ -59,6 +59,7 @@ pub fn snippet_world() -> (Vec<MSolution>, StateSpec) {
 pub fn program_case(prog: Vec<MOp>) -> ExecCase {
     let (solutions, state) = snippet_world();
     ExecCase {
+        parent: None,
         prog,
         init: MState::default(),
         solutions,
@@ -187,6 +188,8 @@ const STACK_OPS: &[(MOp, usize)] = &[
     (EQRA, 1), (NOT, 0), (EQ, 0), (ADD, 0),
 ];
 const MEM_OPS: &[(MOp, usize)] = &[(ALOC, 1), (FREE, 1), (LOD, 1), (STO, 2), (LODR, 2), (STOR, 2)];
+/// Executed as a compute child: the generated memory is the (read-only) parent memory.
+const PMEM_OPS: &[(MOp, usize)] = &[(LODP, 1), (LODPR, 2), (LODP, 1), (LODPR, 2), (COME, 0), (COM, 1), (LOD, 1)];
 
 fn shaped_case(ops: &'static [(MOp, usize)], mem_focus: bool) -> impl Strategy<Value = ExecCase> {
     (0..ops.len(), base_len(4096), if mem_focus { base_len(10240) } else { prop_oneof![Just(0usize), Just(3usize), 0usize..40].boxed() })
@@ -215,7 +218,11 @@ fn shaped_case(ops: &'static [(MOp, usize)], mem_focus: bool) -> impl Strategy<V
             let op = if let PUSH(_) = op { PUSH(imm) } else { op };
             let mut c = ExecCase::simple(vec![op]);
             c.init.stack = stack;
-            c.init.memory = memory;
+            if std::ptr::eq(ops, PMEM_OPS) {
+                c.parent = Some(memory);
+            } else {
+                c.init.memory = memory;
+            }
             c
         })
 }
@@ -335,7 +342,7 @@ pub fn property() -> Property {
         subs: vec![
             enum_sub("ops.alu_pred_exhaustive", exhaustive_items, oracle),
             prop_sub("ops.stack_shapes", 200_000, 2_000_000, |_| prop_oneof![3 => shaped_case(STACK_OPS, false).boxed(), 2 => range_case().boxed()], oracle),
-            prop_sub("ops.memory_shapes", 125_000, 1_200_000, |_| prop_oneof![3 => shaped_case(MEM_OPS, true).boxed(), 1 => parent_memory_case().boxed()], oracle),
+            prop_sub("ops.memory_shapes", 125_000, 1_200_000, |_| prop_oneof![3 => shaped_case(MEM_OPS, true).boxed(), 1 => parent_memory_case().boxed(), 1 => shaped_case(PMEM_OPS, true).boxed()], oracle),
             prop_sub(
                 "ops.programs",
                 30_000,
